@@ -713,6 +713,16 @@ func (w *Walker) evalTuple(e ast.Expr, st *State, n int) []tupleRes {
 		return out
 	case *ast.IndexExpr: // v, ok := m[k]
 		var out []tupleRes
+		if tr, ok := w.tableLookup(x, st); ok {
+			for _, r := range tr {
+				okT := constTerm("false")
+				if r.found {
+					okT = constTerm("true")
+				}
+				out = append(out, tupleRes{r.st, []*Term{r.val, okT}})
+			}
+			return out
+		}
 		for _, r := range w.eval(x, st) {
 			out = append(out, tupleRes{r.st, []*Term{r.t, fresh("ok")}})
 		}
@@ -1455,6 +1465,12 @@ func (w *Walker) eval(e ast.Expr, st *State) []evalRes {
 			return one(fresh("type"))
 		}
 		var out []evalRes
+		if tr, ok := w.tableLookup(x, st); ok {
+			for _, r := range tr {
+				out = append(out, evalRes{r.st, r.val})
+			}
+			return out
+		}
 		for _, b := range w.eval(x.X, st) {
 			for _, i := range w.eval(x.Index, b.st) {
 				t := mkTerm(KIndex, "", b.t, i.t)
@@ -1684,6 +1700,26 @@ func constObjTerm(o *types.Const) *Term {
 	return constOf(o.Val(), o.Type())
 }
 
+// tableLookup: x is an index into a constant dispatch table; the lookup is expanded over its entries.
+func (w *Walker) tableLookup(x *ast.IndexExpr, st *State) ([]tblRes, bool) {
+	if w.Fn.Pkg.PkgPath != modPath {
+		return nil, false
+	}
+	bs := w.eval(x.X, st)
+	if len(bs) != 1 || bs[0].t.K != KField {
+		return nil, false
+	}
+	tb := w.A.dispatchTable(bs[0].t.Name)
+	if tb == nil {
+		return nil, false
+	}
+	var out []tblRes
+	for _, k := range w.eval(x.Index, bs[0].st) {
+		out = append(out, w.lookupTable(tb, k.t, k.st)...)
+	}
+	return out, true
+}
+
 func (w *Walker) selector(x *ast.SelectorExpr, st *State) []evalRes {
 	// package-qualified identifier
 	if id, ok := x.X.(*ast.Ident); ok {
@@ -1714,6 +1750,10 @@ func (w *Walker) selector(x *ast.SelectorExpr, st *State) []evalRes {
 			continue
 		}
 		fv := sel.Obj().(*types.Var).Origin()
+		if e, ok := w.A.entryOf[b.t.S]; ok && w.A.entryOf != nil {
+			out = append(out, w.entryField(e, x.Sel.Name, fv.Type(), b.st)...)
+			continue
+		}
 		ft := w.fieldTerm(b.t, fv, x.Sel.Name)
 		if ft.K == KField && !w.lvalue {
 			if b.st.ReadSeen == nil {
